@@ -18,6 +18,7 @@ pub mod c14;
 #[cfg(feature = "net")]
 pub mod c15;
 pub mod c16;
+pub mod c19;
 pub mod c20;
 
 pub fn dispatch(a: &Args) -> Option<Report> {
@@ -39,6 +40,7 @@ pub fn dispatch(a: &Args) -> Option<Report> {
         #[cfg(feature = "net")]
         "C15" => c15::run(a),
         "C16" => c16::run(a),
+        "C19" => c19::run(a),
         "C20" => c20::run(a),
         _ => None,
     }
